@@ -149,6 +149,37 @@ def params(c):
     return len(cases)
 
 
+def inheritance(c):
+    """Inherit.tla: a static neighbour in a peer group - where every effective parameter (and the capabilities of the OPEN)
+    comes from, for every combination of fields set by the neighbour and by the group."""
+    spec = os.path.join(vf.ROOT, "spec", "Admission")
+    r = vf.tlc(spec, "InheritMC", os.path.join(spec, "inherit.cfg"), workers=2, timeout=600)
+    c.add_tlc("inherit-cases", r)
+    if r.violated:
+        c.violation("inherit.design", {"invariant": r.violated, "tlc": r.error_text[:3000]}, {"spec": "Inherit"})
+        return 0
+    cases = [json.loads(json.loads(ln)) for ln in r.stdout.splitlines() if ln.startswith('"{')]
+    cases.sort(key=vf.canon)
+    inp = os.path.join(vf.WORK, "C16.inh.in")
+    outp = os.path.join(vf.WORK, "C16.inh.out")
+    with open(inp, "w") as f:
+        for j in cases:
+            x = j["case"]
+            f.write(f"inh {','.join(sorted(x['own'])) or '-'} {','.join(sorted(x['grp'])) or '-'}\n")
+    vf.daemon_test("inherit_replay", {"VERIF_IN": inp, "VERIF_OUT": outp})
+    got = vf.read_jsonl(outp)
+    if len(got) != len(cases):
+        raise vf.ToolError(f"inherit_replay: {len(got)} results for {len(cases)} cases")
+    seen = set()
+    for j, g in zip(cases, got):
+        for k, ev in j["exp"].items():
+            if g[k] != ev and k not in seen:
+                seen.add(k)
+                c.violation("inherit." + k, {"case": j["case"], "field": k, "expected": ev, "actual": g[k], "got": g}, {"spec": "Inherit", "case": j})
+    c.cov["parts"]["inherit-replay"] = {"cases": len(cases)}
+    return len(cases)
+
+
 def containment(c):
     spec = os.path.join(vf.ROOT, "spec", "Admission")
     r = vf.tlc(spec, "ContainsMC", os.path.join(spec, "contains.cfg"), workers=2, timeout=600)
@@ -179,7 +210,7 @@ def containment(c):
 
 
 def main(c):
-    n = (negotiation(c) or 0) + params(c) + containment(c)
+    n = (negotiation(c) or 0) + params(c) + inheritance(c) + containment(c)
     import drvlib
     m = drvlib.admission(c)
     c.cov["distinct_nontrivial"] = (n or 0) + (m or 0)
